@@ -403,7 +403,7 @@ func (r *runner) step(root context.Context, rng *rand.Rand, actor, mix string, b
 	case "uwc":
 		c.Owner = owners[rng.IntN(len(owners))]
 		c.Phase = []string{"running", "running", "any", "tearingDown"}[rng.IntN(4)]
-		c.Mut = []string{"append", "append", "append", "noop", "fail"}[rng.IntN(5)]
+		c.Mut = []string{"append", "append", "append", "noop", "fail", "idem", "idem"}[rng.IntN(7)]
 		c.Token = c.Tag
 		c.Via = []string{"state", "safe"}[rng.IntN(2)]
 
@@ -508,12 +508,21 @@ func (r *runner) step(root context.Context, rng *rand.Rand, actor, mix string, b
 	}
 }
 
+// IdemFinalizer is the finalizer the idempotent mutators add.
+const IdemFinalizer = "idem"
+
 func (r *runner) mutator(c *Call) func(resource.Resource) error {
 	return func(x resource.Resource) error {
 		switch c.Mut {
 		case "fail":
 			return errMutator
 		case "noop":
+			return nil
+		case "idem":
+			// an idempotent change several actors make alike: it is a real write for the first one and a no-op for whoever comes
+			// (or retries) after it
+			x.Metadata().Finalizers().Add(IdemFinalizer)
+
 			return nil
 		}
 
